@@ -7,6 +7,7 @@
   (`utf8_append` makes the byte-level statement).
 -/
 import ICal.Lemmas.Fold
+import ICal.Lemmas.FoldLines
 namespace ICal.C06
 
 /-- Master statement, generic in the limit (`5 ≤ limit`: a 4-octet character must fit): the
@@ -82,5 +83,71 @@ theorem utf8_length (l : Str) : (utf8 l).length = octets l := by
     asserts of every content line; e.g. a line made of multi-octet characters satisfies it. -/
 example : LF ∉ List.replicate 40 'é' := by decide
 example : (5 : Nat) ≤ Gen.foldLimit := by decide
+
+/-- Component level, with empty lines allowed: `Contentlines.to_ical` skips empty lines, folds
+    the others, joins them with CR LF and appends CR LF; `Contentlines.from_ical` unfolds the
+    whole text, splits it on line breaks and drops empty lines.  Every non-empty line that has no
+    raw line feed and does not start with SP or HT is recovered exactly, in order. -/
+theorem lines_roundtrip_filter (ls : List Str)
+    (h : ∀ l ∈ ls, LF ∉ l ∧ l.head? ≠ some SP ∧ l.head? ≠ some HT ∧ l.head? ≠ some BOM) :
+    linesFromIcal (linesToIcal ls) = ls.filter (· ≠ []) := by
+  have hbom : stripBOM (linesToIcal ls) = linesToIcal ls :=
+    stripBOM_linesToIcal ls (fun l hl => ⟨(h l hl).2.2.2, (h l hl).1⟩)
+  have h : ∀ l ∈ ls, LF ∉ l ∧ l.head? ≠ some SP ∧ l.head? ≠ some HT :=
+    fun l hl => ⟨(h l hl).1, (h l hl).2.1, (h l hl).2.2.1⟩
+  unfold linesFromIcal; rw [hbom]
+  have hf : ls.filter (· ≠ []) = ls.filter (fun l => !l.isEmpty) := by
+    apply List.filter_congr; intro l _; cases l <;> simp
+  rw [hf]
+  generalize hk : ls.filter (fun l => !l.isEmpty) = ks
+  have hks : ∀ l ∈ ks, RealLine l := by
+    intro l hl
+    rw [← hk, List.mem_filter] at hl
+    obtain ⟨h1, h2, h3⟩ := h l hl.1
+    refine ⟨?_, h1, h2, h3⟩
+    intro e; subst e; simp at hl
+  have hlf : ∀ l ∈ ks, LF ∉ l := fun l hl => (hks l hl).2.1
+  have hne : ks.filter (fun l => !l.isEmpty) = ks := by
+    rw [List.filter_eq_self]; intro l hl
+    have := (hks l hl).1
+    cases l with
+    | nil => exact absurd rfl this
+    | cons c cs => rfl
+  unfold linesFromText linesToIcal
+  rw [hk]
+  cases hks' : ks with
+  | nil =>
+    have e : unfold [CR, LF] = [CR, LF] := by
+      have := unfold_break [] trivial
+      simpa [unfold] using this
+    simp only [List.map_nil, joinWith, List.nil_append, e]
+    have : splitNewline [CR, LF] = [[], []] := by
+      have := splitNewline_line [] [] (by simp)
+      simpa [splitNewline] using this
+    rw [this]; rfl
+  | cons k ks' =>
+    rw [← hks']
+    have hmap : ks.map foldline ≠ [] := by rw [hks']; simp
+    have hb : joinWith [CR, LF] (ks.map foldline) ++ [CR, LF] = body (ks.map foldline) :=
+      joinWith_append_sep [CR, LF] _ hmap
+    rw [hb, (unfold_body ks hks).2, splitNewline_body ks hlf, List.filter_append, hne]
+    simp
+
+/-- Component level of C06: every content line of a serialised component is recovered exactly
+    by unfolding and splitting.  The hypotheses are what holds of real content lines: they are
+    non-empty, contain no raw line feed (`Contentline.__new__` asserts it) and start with a
+    property name, hence not with a space, a tab or a byte-order mark (a leading U+FEFF of the
+    text is dropped by the reader). -/
+theorem lines_roundtrip (ls : List Str)
+    (h : ∀ l ∈ ls, l ≠ [] ∧ LF ∉ l ∧ l.head? ≠ some SP ∧ l.head? ≠ some HT ∧ l.head? ≠ some BOM) :
+    linesFromIcal (linesToIcal ls) = ls := by
+  rw [lines_roundtrip_filter ls (fun l hl => (h l hl).2), List.filter_eq_self]
+  intro l hl
+  simpa using (h l hl).1
+
+/-! Non-vacuity of the line hypotheses, including a line that ends with CR and one that starts
+    with CR (both are handled: `CR CR LF` breaks after the second CR only). -/
+example : ∀ l ∈ [['A', ':', 'b', CR], [CR, 'x'], List.replicate 80 'é'],
+    l ≠ [] ∧ LF ∉ l ∧ l.head? ≠ some SP ∧ l.head? ≠ some HT ∧ l.head? ≠ some BOM := by decide
 
 end ICal.C06
